@@ -540,3 +540,105 @@ func (na *nilAnalysis) StatusFindings() (findings []NilFinding, examined int) {
 	})
 	return
 }
+
+// EscapeFindings: a possibly-nil registry handle (looked up with a name that is not registry-derived,
+// no presence test) leaves the function that looked it up — converted to a non-empty interface (a typed
+// nil that passes every `== nil` test downstream), stored into a slice or struct, passed as an argument or
+// returned. The dereference then happens somewhere NILKEY cannot see.
+func (na *nilAnalysis) EscapeFindings() (findings []NilFinding, examined int) {
+	p := na.p
+	for _, fn := range na.funcs {
+		fa := p.FA(fn)
+		for _, b := range fn.Blocks {
+			for _, in := range b.Instrs {
+				call, ok := in.(*ssa.Call)
+				if !ok || !p.siteIs(call, "(*mysql.Cluster).Get") {
+					continue
+				}
+				key := call.Call.Args[1]
+				for _, esc := range na.escapes(call) {
+					examined++
+					if !fa.Reachable(esc.at) {
+						continue
+					}
+					v := esc.v
+					self := func(l Lit) bool {
+						return l.T.Op == "isnil" && !l.Pos && (l.T.Args[0].V == v || l.T.Args[0].V == ssa.Value(call))
+					}
+					if ok, _ := fa.Gated(esc.at, self); ok {
+						continue
+					}
+					if na.keyReg(fn, key, esc.at) {
+						continue
+					}
+					_, path := fa.Gated(esc.at, na.guardFor(p.T(key)))
+					findings = append(findings, NilFinding{fn, esc.at, fmt.Sprintf("registry[%s] %s", na.keyDesc(key), esc.how), "the name is not registry-derived and no presence test dominates the point where the handle leaves the function; path: " + fa.PathString(path)})
+				}
+			}
+		}
+	}
+	sort.Slice(findings, func(i, j int) bool {
+		return p.Name(findings[i].Fn)+findings[i].Construct < p.Name(findings[j].Fn)+findings[j].Construct
+	})
+	return
+}
+
+type nilEscape struct {
+	at  ssa.Instruction
+	v   ssa.Value
+	how string
+}
+
+func (na *nilAnalysis) escapes(v ssa.Value) []nilEscape {
+	var out []nilEscape
+	seen := map[ssa.Value]bool{}
+	var rec func(x ssa.Value, d int)
+	rec = func(x ssa.Value, d int) {
+		if seen[x] || d > 2 || x.Referrers() == nil {
+			return
+		}
+		seen[x] = true
+		for _, r := range *x.Referrers() {
+			switch u := r.(type) {
+			case *ssa.Phi:
+				rec(u, d+1)
+			case *ssa.MakeInterface:
+				if it, ok := u.Type().Underlying().(*types.Interface); ok && it.NumMethods() > 0 {
+					out = append(out, nilEscape{u, x, "⇒interface " + typeShort(u.Type())})
+				}
+			case *ssa.Store:
+				if u.Val != x {
+					continue
+				}
+				switch a := u.Addr.(type) {
+				case *ssa.IndexAddr:
+					out = append(out, nilEscape{u, x, "⇒slice element"})
+				case *ssa.FieldAddr:
+					out = append(out, nilEscape{u, x, "⇒field " + afterDot(fieldName(a.X.Type(), a.Field))})
+				case *ssa.Alloc:
+					// a local variable: its loads are further uses
+					for _, rr := range *a.Referrers() {
+						if ld, ok := rr.(*ssa.UnOp); ok && ld.X == ssa.Value(a) {
+							rec(ld, d+1)
+						}
+					}
+				}
+			case *ssa.Return:
+				out = append(out, nilEscape{u, x, "⇒returned"})
+			case ssa.CallInstruction:
+				cc := u.Common()
+				for i, a := range cc.Args {
+					if a != x {
+						continue
+					}
+					if i == 0 && !cc.IsInvoke() && cc.Signature().Recv() != nil {
+						continue // receiver position: NILKEY's dereference
+					}
+					out = append(out, nilEscape{u, x, "⇒argument of " + afterDot(na.p.CalleeNames(u)[0])})
+				}
+			}
+		}
+	}
+	rec(v, 0)
+	return out
+}
